@@ -46,6 +46,21 @@ def wktWrite (line : String) : String :=
     | _ => "bad-gtree"
   | none => "bad-line"
 
+/-- `<n> | <trim> <prec> <dim> <old3d> <pmDigits> <scale bits> <mask> <gtree> | …` — a sequence written by ONE reused writer; the model writer is
+stateless, so every element is answered on its own: `R:<text> F:<text>` (reused and fresh writer must both give it) -/
+def wktWriteSeq (line : String) : String :=
+  match line.splitOn " | " with
+  | _ :: steps =>
+    let outs := steps.map fun st =>
+      match parseCfg (Driver.tokens st) with
+      | some (cfg, msd :: _scale :: _mask :: r) =>
+        match msd.toInt?, Driver.GTreeIO.parseGeom r with
+        | some d, some (g, []) => let s := write { cfg with pmDigits := d } g.g; s!"R:{s} F:{s}"
+        | _, _ => "bad-gtree"
+      | _ => "bad-line"
+    " ;; ".intercalate outs
+  | [] => "bad-line"
+
 def wktRead (line : String) : String :=
   match read line with
   | .ok g => Driver.GTreeIO.showGeom ⟨0, g⟩
@@ -103,7 +118,7 @@ def geojson (line : String) : String :=
   | _ => "bad-line"
 
 def handlers : List (String × (String → String)) :=
-  [("fmt", fmt), ("wkt-write", wktWrite), ("wkt-read", wktRead), ("wkt-rt", wktRt), ("wkt-class", wktClass), ("geojson", geojson)]
+  [("fmt", fmt), ("wkt-write", wktWrite), ("wkt-write-seq", wktWriteSeq), ("wkt-read", wktRead), ("wkt-rt", wktRt), ("wkt-class", wktClass), ("geojson", geojson)]
 
 end Driver.C10
 
